@@ -676,7 +676,7 @@ func init() {
 		r.Exhaustive = true
 		r.Assumptions = []string{"error texts are not compared, only presence", "bounded program spaces"}
 		col := core.NewCollector()
-		designRun(r, "C04", tierCfgs(r, []string{"aug_quick", "aug_late", "uses_quick", "aug_pair", "aug_sub_quick", "cfg"}, []string{"aug_sub", "aug_two", "uses", "split"}), col)
+		designRun(r, "C04", tierCfgs(r, []string{"aug_quick", "aug_late", "uses_quick", "aug_pair", "aug_sub_quick", "cfg", "dev3"}, []string{"aug_sub", "aug_two", "uses", "split", "dev2"}), col)
 		r.ValidateTrace("schema", col, core.TLCOpts{Module: "SchemaTrace", Cfg: "SchemaTrace.cfg", Timeout: 0, HeapGB: 8})
 		directionB(r, "C04", true)
 		// however the run is asked for (Process, GetModule, after ClearEntryCache): clean means clean, and the trees are those of a fresh set
